@@ -50,6 +50,7 @@ type FuncSpec struct {
 	ResNames   []string
 	Extern     bool
 	GhostSets  [][2]*Expr // on return: ghost location := value
+	Before     map[string][]*Clause // "before <callee>: assert e": proved in the caller's state at every call of <callee>
 	File       string
 	Line       int
 	Used       bool
@@ -101,7 +102,7 @@ func NewSpecDB() *SpecDB {
 
 var clauseKeywords = map[string]bool{
 	"property": true, "pure": true, "axiom": true, "ghost": true, "global": true, "func": true, "extern": true,
-	"fieldspec": true, "ghostset": true, "preserves": true, "crashinv": true, "define": true, "requires": true, "ensures": true, "modifies": true, "loop": true, "canary": true, "flag": true,
+	"fieldspec": true, "before": true, "ghostset": true, "preserves": true, "crashinv": true, "define": true, "requires": true, "ensures": true, "modifies": true, "loop": true, "canary": true, "flag": true,
 	"inline": true, "trusted": true, "assume": true,
 }
 
@@ -535,6 +536,28 @@ func (db *SpecDB) LoadFile(file string, defaultPkg string) error {
 			default:
 				return errf(rc, "unknown loop clause %q", kind)
 			}
+		case "before":
+			if cur == nil {
+				return errf(rc, "before outside a func")
+			}
+			// before <callee key>: assert[label] e
+			i := strings.IndexByte(rest, ':')
+			if i < 0 {
+				return errf(rc, "before <callee>: assert e")
+			}
+			callee := strings.TrimSpace(rest[:i])
+			r := strings.TrimSpace(rest[i+1:])
+			if !strings.HasPrefix(r, "assert") {
+				return errf(rc, "before <callee>: assert e")
+			}
+			c, err := mkClause(rc, "assert", r[len("assert"):])
+			if err != nil {
+				return err
+			}
+			if cur.Before == nil {
+				cur.Before = map[string][]*Clause{}
+			}
+			cur.Before[callee] = append(cur.Before[callee], c)
 		case "flag", "inline", "trusted":
 			if cur == nil {
 				return errf(rc, "flag outside a func")
